@@ -341,6 +341,55 @@ func (g *Gen) CoroutineProgram() *Chunk {
 		}
 		g.cover("co:go-api-drive")
 	}
+	// the Go API resumes a thread that a wrap function drove last: values and failure
+	// come back as the API documents them, not the way the wrap call would report them
+	if g.R.Intn(8) == 0 {
+		b.Stmts = append(b.Stmts,
+			&SLocal{Names: []string{"wth"}},
+			Local1("ww", co("wrap", Fn(nil, false, Blk(
+				Assign1(N("wth"), co("running")),
+				&SCall{Call: co("yield", Num(1))},
+				&SCall{Call: co("yield", Num(2), Num(3))},
+				CallSN("error", &ETable{}))))),
+			CallSN("emit", Str("ww1"), Call(N("ww"))),
+			CallSN("emit", Str("gores-on-wrap-thread"), CallN("gores", N("wth"))),
+			CallSN("emit", Str("gores-on-wrap-thread-failure"), CallN("gores", N("wth"))),
+			CallSN("emit", Str("gores-on-wrap-thread-status"), co("status", N("wth")), CallN("gores", N("wth"))))
+		g.cover("co:go-api-on-a-wrap-driven-thread")
+	}
+	// a resume that supplies fewer values than the pending yield assigns: the rest is
+	// nil and stays nil when the next thing the coroutine does is a call made by the
+	// interpreter itself (a metamethod handler, an iterator, a comparison handler)
+	if g.R.Intn(5) == 0 {
+		supplied := g.R.Intn(3)
+		args := []Expr{}
+		for i := 0; i < supplied; i++ {
+			args = append(args, Num(float64(70+i)))
+		}
+		var after Stmt
+		switch g.R.Intn(4) {
+		case 0:
+			after = Local1("sx", Dot(N("smt"), "k")) // __index function
+		case 1:
+			after = Local1("sx", Bin("+", N("smt"), Num(1))) // __add
+		case 2:
+			after = &SGenFor{Names: []string{"si"}, Exprs: []Expr{Fn([]string{"s", "c"}, false, Blk(&SIf{Conds: []Expr{Bin("<", N("c"), Num(2))}, Blocks: []*Block{Blk(Return(Bin("+", N("c"), Num(1))))}})), &ENil{}, Num(0)}, Body: Blk(CallSN("emit", Str("short-iter"), N("si")))}
+		default:
+			after = Local1("sx", Bin("..", N("smt"), Str("z"))) // __concat
+		}
+		b.Stmts = append(b.Stmts,
+			Local1("sco", co("wrap", Fn(nil, false, Blk(
+				Local1("smt", CallN("setmetatable", &ETable{}, &ETable{Items: []TItem{
+					{Kind: TName, Name: "__index", Val: Fn(nil, false, Blk(Return(Num(42))))},
+					{Kind: TName, Name: "__add", Val: Fn(nil, false, Blk(Return(Num(43))))},
+					{Kind: TName, Name: "__concat", Val: Fn(nil, false, Blk(Return(Str("cc"))))}}})),
+				&SLocal{Names: []string{"sa", "sb", "sc", "sd"}, Exprs: []Expr{co("yield", Str("first"))}},
+				after,
+				Return(N("sa"), N("sb"), N("sc"), N("sd"), CallN("type", N("sb")), CallN("type", N("sd"))))))),
+			CallSN("emit", Str("short-resume-1"), Call(N("sco"))),
+			CallSN("emit", Str("short-resume-2"), CallN("pcall", append([]Expr{N("sco")}, args...)...)))
+		g.cover("co:resume-with-fewer-values-then-interpreter-call")
+	}
 	// a closure over a local of a coroutine that dies by a fault of its own function
 	// keeps the value the local had (the dying coroutine's registers are cleared)
 	if g.R.Intn(6) == 0 {
